@@ -401,6 +401,8 @@ def main():
     rep2 = gen_sphere.main_curve(REPO, os.path.join(ck.rundir, 'CurveGen.v'))
     ok2 = ck.gen('CurveGen.v', rep2, 'CurveGenEq.v')
     ck.props('Props/C03.v')
+    if ck.tier == 'thorough':
+        c07.run_coqchk(ck, 'GV.Props.C03')
 
     rng = ck.rng
     quick = ck.tier == 'quick'
